@@ -17,7 +17,7 @@ Lemma tokenize_name key : name_ok key -> ctokenize false key = CTOk [mkCTok (CLi
 Proof.
   intros Hk. unfold ctokenize.
   assert (Hc : cconsume (Nat.eqb 0 0 && negb false) (Nat.eqb 0 0) key = CTok (CLiteral key) (length key)).
-  { pose proof (cconsume_key key [] Hk eq_refl) as H. rewrite app_nil_r in H. exact H. }
+  { pose proof (cconsume_key true key [] Hk eq_refl) as H. rewrite app_nil_r in H. exact H. }
   rewrite (ctoks_round key false 0 [] 0 key _ _ Hc I). cbn [should_consume_dash_after].
   rewrite skipn_all. reflexivity.
 Qed.
